@@ -105,7 +105,7 @@ func viaTransport(key, pkt []byte) result {
 func main() {
 	run := vr.New("C04", "fault_enumeration")
 	run.Rule("base packets (R2-sealed server packets, 7 body lengths x 2 keys) x every single-bit flip of every byte, every truncation length, garbage ciphertext blocks, wrong key id / re-keying, attacker-with-key re-seals with every declared length in {-2^31,-1,2^31-1} u {len-33..len+33} x both msg_key choices, every msg_id parity; through messages.DeserializeEncrypted and through transport.ReadMsg; plus structural faults of unencrypted packets. non-trivial = distinct faulted packet (differs from the base packet)")
-	run.Assume("oracle: error, or a message equal in all fields to the one the key holder sealed; a re-seal whose declared length lies inside the plaintext and whose msg_key covers exactly that range is a legitimate message (body = declared range) and may be accepted as such or refused",
+	run.Assume("oracle: an altered, truncated or re-keyed packet must be refused with an error (producing even the original message from an altered packet is a violation); a re-seal whose declared length lies inside the plaintext and whose msg_key covers exactly that range is a legitimate message (body = declared range) and may be accepted as such or refused",
 		"acceptance of a bit-flipped packet would need a SHA-1 collision on msg_key; the oracle compares fields rather than relying on that")
 	keys := [][]byte{pat(256, func(i int) byte { return byte(i*7 + 1) }), pat(256, func(i int) byte { return byte(255 - i) })}
 	lens := []int{0, 4, 12, 16, 28, 32, 60}
@@ -157,7 +157,7 @@ func main() {
 					}
 					id := fmt.Sprintf("%s flip k%d n%d bit%d", entry, ki, n, bit)
 					run.Eval(id, true)
-					check(entry, "bitflip-"+region, id, map[string]any{"fault": "flip", "key": ki, "len": n, "bit": bit, "entry": entry}, f(key, q), m)
+					check(entry, "bitflip-"+region, id, map[string]any{"fault": "flip", "key": ki, "len": n, "bit": bit, "entry": entry}, f(key, q))
 				}
 				// 2. truncations
 				for l := 0; l < len(pkt); l++ {
@@ -177,7 +177,7 @@ func main() {
 					}
 					id := fmt.Sprintf("%s trunc k%d n%d to%d", entry, ki, n, l)
 					run.Eval(id, true)
-					check(entry, class, id, map[string]any{"fault": "truncate", "key": ki, "len": n, "to": l, "entry": entry}, f(key, pkt[:l]), m)
+					check(entry, class, id, map[string]any{"fault": "truncate", "key": ki, "len": n, "to": l, "entry": entry}, f(key, pkt[:l]))
 				}
 				// 3. garbage blocks under the right key id and the original msg_key
 				for k := 1; k <= 4; k++ {
@@ -185,7 +185,7 @@ func main() {
 						q := append(append([]byte{}, pkt[:24]...), pat(16*k, g)...)
 						id := fmt.Sprintf("%s garbage k%d n%d blocks%d g%d", entry, ki, n, k, gi)
 						run.Eval(id, true)
-						check(entry, "garbage-blocks", id, map[string]any{"fault": "garbage", "key": ki, "len": n, "blocks": k, "g": gi, "entry": entry}, f(key, q), m)
+						check(entry, "garbage-blocks", id, map[string]any{"fault": "garbage", "key": ki, "len": n, "blocks": k, "g": gi, "entry": entry}, f(key, q))
 					}
 				}
 				// 4. wrong key
@@ -194,11 +194,11 @@ func main() {
 					q := mtp1.Seal(other, m, make([]byte, mtp1.PadLen(n)), 8)
 					id := fmt.Sprintf("%s rekeyed k%d n%d", entry, ki, n)
 					run.Eval(id, true)
-					check(entry, "sealed-under-other-key", id, map[string]any{"fault": "rekey", "key": ki, "len": n, "entry": entry}, f(key, q), m)
+					check(entry, "sealed-under-other-key", id, map[string]any{"fault": "rekey", "key": ki, "len": n, "entry": entry}, f(key, q))
 					q2 := append([]byte{}, q...)
 					copy(q2[:8], mtp1.KeyID(key)) // other key's ciphertext under our key id
 					run.Eval(id+" id-swapped", true)
-					check(entry, "other-key-right-id", id+" id-swapped", map[string]any{"fault": "rekey-id", "key": ki, "len": n, "entry": entry}, f(key, q2), m)
+					check(entry, "other-key-right-id", id+" id-swapped", map[string]any{"fault": "rekey-id", "key": ki, "len": n, "entry": entry}, f(key, q2))
 				}
 				// 5. attacker holds the key: declared lengths
 				for _, padBlocks := range []int{0, 1} {
